@@ -109,6 +109,10 @@ def check(ctx):
     for b_ in ("i=35", "ns=2;i=35", "i=0", "ns=1;i=7"):
         for w_ in ("\n", " ", "\r\n", "\t", "\n\n", "\x0b", "\x0c"):        # (ASCII white space: the model's strings are bytes)
             texts += [b_ + w_, w_ + b_, b_.replace("=", "=" + w_, 1)]
+    # every prefix and every single-character deletion of well-formed texts of each identifier type (a text cut off after the type letter, without
+    # its '=', without its ';', without its namespace number, ...)
+    for b_ in base + ["ns=1;s=a", "ns=7;g=x", "ns=2;b=QQ==", "ns=10;i=5", "s=a", "g=x", "b=QQ==", "ns=0;s=", "ns=3;s=="]:
+        texts += [b_[:k] for k in range(len(b_))] + [b_[:k] + b_[k + 1:] for k in range(len(b_))]
     for s in texts: cases.append(("txt", s))
 
     # ---- identifiers outside the model's alphabet (decimal digits of other scripts, which str.isdigit accepts; thousands of digits; very long strings):
